@@ -53,6 +53,9 @@ pub fn alphabet() -> Vec<P> {
         v.push(P::amt(acct, "1", "X").with_ann(crate::refledger::Ann::Rate("2", "Y")).with_bal(Bal::Val("2", "X")));
         v.push(P::amt(acct, "-1", "X").with_ann(crate::refledger::Ann::LotRate("3", "Y")).with_bal(Bal::Val("0", "X")));
         v.push(P::amt(acct, "2", "Y").with_ann(crate::refledger::Ann::Total("3", "X")).with_bal(Bal::Val("2", "Y")));
+        // a SALE priced by its total (cost and lot): the counter value keeps the sign of the quantity
+        v.push(P::amt(acct, "-2", "X").with_ann(crate::refledger::Ann::Total("4", "Y")));
+        v.push(P::amt(acct, "-2", "X").with_ann(crate::refledger::Ann::LotTotal("4", "Y")));
         v.push(P::amt(acct, "1", "X").with_bal(Bal::Val("1", "Y")));
         v.push(P::amt(acct, "1", "X").with_bal(Bal::Val("0", "Y")));
         v.push(P::amt(acct, "-1", "Y").with_bal(Bal::Val("2", "X")));
@@ -66,7 +69,7 @@ pub fn reduced(full: &[P]) -> Vec<P> {
             (None, Bal::None) => true,
             (None, Bal::Zero) => true,
             (None, Bal::Val(w, _)) => matches!(*w, "0" | "1" | "3"),
-            (Some((v, _)), Bal::None) => matches!(*v, "1" | "-1"),
+            (Some((v, _)), Bal::None) => matches!(*v, "1" | "-1") || matches!(p.ann, crate::refledger::Ann::Total(..)),
             (Some((v, c)), Bal::Zero) => *v == "1" && *c == "X" || *v == "-1" && *c == "X",
             (Some((v, c)), Bal::Val(w, wc)) if p.ann != crate::refledger::Ann::None => *v == "1" && *c == "X" && *w == "1" && wc == c,
             (Some((v, c)), Bal::Val(w, wc)) => (c == wc && matches!((*v, *w), ("1", "1") | ("1", "2") | ("-1", "0") | ("1", "0") | ("0.4", "0"))) || (c.is_empty() && *w == "1"),
